@@ -19,7 +19,7 @@ ASSUMPTIONS = ["scheduler runtime 0 (as in 33 of the 34 bundled configs)", "no p
 
 
 def greedy_worlds(tier):
-    return specs.worlds(contention=True, max_jobs=6, flags=specs.sim_flags())
+    return specs.worlds(contention=True, max_jobs=6, flags=specs.sim_flags(), zero_quantity=True)
 
 
 CHECKS = [
